@@ -2841,7 +2841,10 @@ func hijackConnHandler(ctx *RequestCtx, r io.Reader, c net.Conn, s *Server, h Hi
 	} else if s.ReduceMemoryUsage {
 		// With ReduceMemoryUsage the buffered reader of the connection reads
 		// through ctx.fbr (see acquireByteReader), and the kept connection
-		// still owns that reader: ctx must not be recycled.
+		// still owns that reader: ctx must not be recycled. Its request is
+		// done with, though: drop it and the temporary files of its form.
+		ctx.Request.Reset()
+		ctx.Response.Reset()
 		return
 	}
 	s.releaseCtx(ctx)
